@@ -336,7 +336,8 @@ def parse_ts(out):
         elif tk[0] == 'RET' and len(tk) >= 11:
             n = int(tk[7])
             r = {'status': tk[1], 't': fx(tk[2]), 'adv': fx(tk[3]), 'over': int(tk[4]), 'w0': fx(tk[5]), 'w1': fx(tk[6]),
-                 'ids': [int(x) for x in tk[8:8 + n]], 'qa': fx(tk[9 + n]), 'qb': fx(tk[10 + n]), 'h': buf, 't_s': tk[2], 'adv_s': tk[3], 'w0_s': tk[5]}
+                 'ids': [int(x) for x in tk[8:8 + n]], 'qa': fx(tk[9 + n]), 'qb': fx(tk[10 + n]), 'h': buf, 't_s': tk[2], 'adv_s': tk[3], 'w0_s': tk[5],
+                 'reason': int(tk[12 + n]) if len(tk) > 12 + n and tk[11 + n] == 'TR' else None}
             cur['targets'][-1]['rets'].append(r); buf = []
         elif tk[0] == 'THROW': cur['throw'] = l
     return scen
@@ -360,10 +361,10 @@ def cmp_log(model_lines, impl_h, ids, where, res, tag):
                                     (idx, ids[idx], kind, hx(t), hx(qa), hx(qb), m[1], m[2], m[3], m[4], m[5]))); return
     res['n_handler_calls'] += len(mh)
 
-def corr_ts(ctx, drv, exe, nscen, seed, res):
-    rcA, outA, errA = sh([exe, 'ts', str(seed), str(nscen), '1'], timeout=900)
-    rcB, outB, errB = sh([exe, 'ts', str(seed), str(nscen), '0'], timeout=900)
-    A = parse_ts(outA); B = parse_ts(outB)
+def corr_ts(ctx, drv, exe, nscen, seed, res, mode='ts'):
+    rcA, outA, errA = sh([exe, mode, str(seed), str(nscen), '1'], timeout=900)
+    rcB, outB, errB = sh([exe, mode, str(seed), str(nscen), '0'], timeout=900)
+    A = parse_ts(outA); B = parse_ts(outB); res['ts_mode'] = mode
     if len(A) != nscen or len(B) != nscen:
         res['mismatch'].append(('ts', 'harness produced %d / %d of %d scenarios: %s' % (len(A), len(B), nscen, (errA + errB)[-300:]))); return
     for a, b in zip(A, B):
@@ -460,6 +461,26 @@ def ts_predicates(a, b, ids, where, res):
         last = [r for tg in sc['targets'] for r in tg['rets']]
         if not last: continue
         tend = last[-1]['t']; terminated = any(int(sc['hs'][i][3]) == 3 for i, _, _, _, _ in calls)
+        # termination: once a handler with the terminate action has run, the dispatch that ran it must leave the simulation
+        # over with reason EventHandlerRequestedTermination (3), whatever handlers ran after it in the same dispatch, and
+        # nothing may happen afterwards (no later return, no later handler call)
+        res['n_pred'] += 1
+        for k, r in enumerate(last):
+            termi = [idx for (idx, kind, t, qa, qb) in r['h'] if kind in ('S', 'T') and int(sc['hs'][idx][3]) == 3]
+            if not termi: continue
+            res['n_term_dispatches'] = res.get('n_term_dispatches', 0) + 1
+            order = [idx for (idx, kind, t, qa, qb) in r['h']]
+            if termi[0] != order[-1]: res['n_term_not_last'] = res.get('n_term_not_last', 0) + 1
+            bad = None
+            if not r['over']: bad = 'the simulation is not over after the dispatch (isSimulationOver() = 0)'
+            elif r.get('reason') is not None and r['reason'] != 3: bad = 'termination reason is %d, not EventHandlerRequestedTermination (3)' % r['reason']
+            elif k != len(last) - 1: bad = 'stepTo made further progress: %d later returns, first %s at t=%s' % (len(last) - 1 - k, last[k + 1]['status'], last[k + 1]['t_s'])
+            if bad:
+                res['pred_fail'].append(('termination_requested_ends_run', where + 'run %s: handler %d (terminate) ran at t=%s in a %s dispatch calling handlers %s; %s' %
+                                         (run, termi[0], hx(r['h'][0][2]), r['status'], order, bad),
+                                         {'mode': res.get('ts_mode', 'ts'), 'scenario': sc['id'], 'integrator': sc['name'], 'handlers(cls,action)': [(int(h[2]), int(h[3])) for h in sc['hs']],
+                                          'replay_cmd': 'build/C22/C22_events %s <seed> %d %d' % (res.get('ts_mode', 'ts'), sc['id'] + 1, 1 if run == 'A' else 0)}))
+            break
         qa_expect = 0.0
         for (idx, kind, t, qa, qb) in calls:
             res['n_pred'] += 1
@@ -578,9 +599,10 @@ def run(ctx):
     # corpus first
     for line in open(os.path.join(VERIF, 'corpus', 'C22', 'regress.txt')):
         tk = line.split()
-        if len(tk) == 3 and tk[0] in ('ts', 'loc'):
-            (corr_ts if tk[0] == 'ts' else corr_loc)(ctx, drv, exe, int(tk[2]), int(tk[1]), res)
+        if len(tk) == 3 and tk[0] in ('ts', 'tsterm'): corr_ts(ctx, drv, exe, int(tk[2]), int(tk[1]), res, mode=tk[0])
+        elif len(tk) == 3 and tk[0] == 'loc': corr_loc(ctx, drv, exe, int(tk[2]), int(tk[1]), res)
     for sd in seeds:
+        corr_ts(ctx, drv, exe, 36 if not thorough else 108, sd, res, mode='tsterm')
         corr_loc(ctx, drv, exe, 48 if not thorough else 160, sd, res)
         corr_ts(ctx, drv, exe, 54 if not thorough else 180, sd, res)
     n = res['n_table'] + res['n_root'] + res['n_fec'] + res['n_sysnext'] + res['n_steps'] + res['n_ts_returns'] + res['n_ts_returns_B']
@@ -613,6 +635,8 @@ def run(ctx):
         seenp.add(key)
         ctx.report('impl:' + key, 'implementation violates the C22 clause %s: %s' % (key, desc), dict(obj, replay_cmd='%s <mode> %d <n>' % (exe, ctx.seed)))
     ctx.extra['predicate_failures'] = len(res['pred_fail'])
+    ctx.extra['dispatches_with_a_terminating_handler'] = res.get('n_term_dispatches', 0)
+    ctx.extra['of_which_terminating_handler_not_called_last'] = res.get('n_term_not_last', 0)
     ctx.extra['cpodes_answers_with_decreasing_advanced_time'] = res['cpodes_nonmono']
     ctx.extra['system_level_next_event_queries'] = res['n_sysnext']; ctx.extra['system_level_loop_variant'] = res.get('sysnext_variant')
     for key, desc, obj in res['findings']:
